@@ -33,6 +33,8 @@ type Case struct {
 	// EnvOrder: the Env options of the reading calls, as indices into Envs in the order given; an index may occur
 	// more than once (an Env config given again counts as added most recently). Empty: each once, in order.
 	EnvOrder []int `json:"env_order,omitempty"`
+	// Sep: the path separator of the case ("" = "."); every name in the case is spelled with it
+	Sep string `json:"sep,omitempty"`
 }
 
 type Later struct {
@@ -41,8 +43,9 @@ type Later struct {
 }
 
 func genCase(t *rapid.T) Case {
-	g := &vx.GCfg{Depth: runlog.Pick(2, 3), Names: vx.Names, NoDollar: runlog.IsOpen("D27"), EnvExprs: true, ResolverCfgs: true}
-	c := Case{Layers: []*vx.Node{g.GenRoot(t)}}
+	sep := rapid.SampledFrom([]string{"", "", "", "/", "->", "|"}).Draw(t, "sep")
+	g := &vx.GCfg{Depth: runlog.Pick(2, 3), Names: vx.Names, NoDollar: runlog.IsOpen("D27"), EnvExprs: true, ResolverCfgs: true, Sep: sep}
+	c := Case{Layers: []*vx.Node{g.GenRoot(t)}, Sep: sep}
 	nl := rapid.IntRange(0, 2).Draw(t, "nlayers")
 	for i := 0; i < nl; i++ {
 		l := &vx.Node{K: "obj"}
@@ -235,7 +238,7 @@ func earlyBound(old, layer *vx.Node) bool {
 }
 
 func runCase(c Case, r *runlog.R) error {
-	live, err := vx.OptionsLive(c.Envs, c.Resolvers)
+	live, err := vx.OptionsLiveSep(c.Envs, c.Resolvers, c.Sep)
 	if err != nil {
 		return err
 	}
@@ -290,7 +293,7 @@ func runCase(c Case, r *runlog.R) error {
 		} else {
 			root = vx.MergeModel(root, layer)
 		}
-		w := &vx.World{Root: root, Envs: ordered(c.Envs), Resolvers: c.Resolvers}
+		w := &vx.World{Root: root, Envs: ordered(c.Envs), Resolvers: c.Resolvers, Sep: c.Sep}
 		n, err := readAll(fmt.Sprintf("after layer %d", li), c, cfg, root, w, readOpts, li > 0, r)
 		if err != nil {
 			return err
@@ -305,7 +308,7 @@ func runCase(c Case, r *runlog.R) error {
 			if i >= len(envs) || l == nil || len(l.Keys) == 0 {
 				continue
 			}
-			if err := uc.Safe("Merge", func() error { return live.EnvCfgs[i].Merge(l.Go(), ucfg.PathSep("."), ucfg.VarExp) }); err != nil {
+			if err := uc.Safe("Merge", func() error { return live.EnvCfgs[i].Merge(l.Go(), ucfg.PathSep(live.Sep), ucfg.VarExp) }); err != nil {
 				return fmt.Errorf("merging into Env config %d failed: %v", i, err)
 			}
 			envs[i] = vx.MergeModel(envs[i].Clone(), l)
@@ -315,7 +318,7 @@ func runCase(c Case, r *runlog.R) error {
 				live.Tables[i] = t
 			}
 		}
-		w := &vx.World{Root: root, Envs: ordered(envs), Resolvers: live.Tables}
+		w := &vx.World{Root: root, Envs: ordered(envs), Resolvers: live.Tables, Sep: c.Sep}
 		n, err := readAll("after the resolvers' answers and the Env configs changed (same Option values)", c, cfg, root, w, readOpts, true, r)
 		if err != nil {
 			return err
@@ -324,6 +327,7 @@ func runCase(c Case, r *runlog.R) error {
 		r.Class("read again after resolvers and Env configs changed")
 	}
 	r.ClassIf(c.ReadNoSep, "merged with PathSep, read without")
+	r.ClassIf(c.Sep != "" && c.Sep != ".", "path separator other than '.'")
 	r.NonTrivialIf(nt)
 	return nil
 }
